@@ -9,7 +9,7 @@ from mzverif import core
 from mzverif import gen as G
 from mzverif import lib as L
 from mzverif import model as M
-from mzverif.core import Sub, Violation, call, require
+from mzverif.core import Failure, Stats, Sub, Violation, call, require
 
 ID = "C09"
 LEVEL = "exploration"
@@ -116,6 +116,65 @@ def check_pair(case: dict):
     return {"nt": nt, "labels": [f"op:{op}", f"kind:{ka}", "equal" if want else "different"]}
 
 
+_PICKLE_CODE = r"""
+import sys, json, base64, pickle, warnings
+warnings.filterwarnings("ignore")
+sys.path.insert(0, {verif!r})
+from mzverif.props import C09
+req = json.load(sys.stdin)
+out = []
+for it in req:
+    m = C09._build(it["kind"], it["g"], it["sol"])
+    h = hash(m); _ = (m == m); len({{m}})          # use the object the way a de-duplication would before it is shipped
+    out.append(base64.b64encode(pickle.dumps(m)).decode())
+print("RESULT" + json.dumps(out))
+"""
+
+
+def check_shipped(case: dict):
+    """mazes that were hashed / compared in ANOTHER interpreter (its own hash seed) and arrive here pickled, and pickled copies made in
+    this process: they must be equal to a locally built maze with the same content, have the same hash and de-duplicate with it"""
+    import base64
+    import json
+    import pickle
+
+    items = case["items"]
+    out = core.run_python(_PICKLE_CODE.format(verif=core.VERIF_DIR), {"PYTHONHASHSEED": str(case["hashseed"])}, stdin=json.dumps(items))
+    blobs = json.loads(next(ln for ln in out.splitlines() if ln.startswith("RESULT"))[len("RESULT"):])
+    for it, blob in zip(items, blobs):
+        local = _build(it["kind"], it["g"], it["sol"])
+        hash(local)
+        arrived = pickle.loads(base64.b64decode(blob))
+        for nm, other in (("unpickled-from-other-process", arrived), ("pickle-round-trip", pickle.loads(pickle.dumps(local)))):
+            sig = f"C09:{it['kind']}:{nm}"
+            try:
+                eq, h1, h2 = (other == local), hash(other), hash(local)
+            except Exception as ex:  # noqa: BLE001
+                raise Violation(f"{sig}:raises:{type(ex).__name__}", str(ex)[:200])
+            require(bool(eq), f"{sig}:not-equal", "a shipped / copied maze is not equal to a locally built maze with the same content")
+            require(h1 == h2, f"{sig}:equal-but-hash-differs", f"equal mazes hash differently ({h1} vs {h2})")
+            require(len({other, local}) == 1, f"{sig}:set-dedup", "set keeps both")
+    return {"nt": True, "labels": ["shipped"]}
+
+
+def _shipped_run(n_items: int):
+    def run(seed_val: int):
+        stats, fails = Stats(), []
+        cases = core.collect_examples(G.solved_case(lo=2, hi=5, square=False), n_items, seed_val)
+        for k, hs in enumerate(("1", "4242", "random")):
+            items = [{"kind": KINDS[(j + k) % 3], "g": c["g"], "sol": c["sol"]} for j, c in enumerate(cases)]
+            case = {"items": items, "hashseed": hs}
+            try:
+                info = check_shipped(case)
+                stats.record(case, info)
+                stats.evaluations += len(items) - 1
+            except Violation as v:
+                fails.append(Failure("shipped-between-processes", v.sig, v.msg, {"items": items[:3], "hashseed": hs}))
+        return stats, fails
+
+    return run
+
+
 def check_bounds(case: dict):
     r, c = case["r"], case["c"]
     s, e, kind = case["s"], case["e"], case["kind"]
@@ -131,6 +190,9 @@ def check_bounds(case: dict):
             if case.get("via") == "from_lattice_maze":
                 return TargetedLatticeMaze.from_lattice_maze(L.lattice(g), co(s), co(e))
             return TargetedLatticeMaze(connection_list=M.g_cl(g), start_pos=co(s), end_pos=co(e))
+        if case.get("via") == "allow_invalid":
+            # the flag tolerates a solution that is no path; it does not make out-of-grid endpoints acceptable
+            return SolvedMaze(connection_list=M.g_cl(g), solution=np.array([s, e]), allow_invalid=True)
         return SolvedMaze(connection_list=M.g_cl(g), solution=np.array([s, e]) if form == "array" else [co(s), co(e)])
 
     try:
@@ -194,6 +256,18 @@ def _mutations_for(g, sol, kind, exhaustive_bits=True):
     if r != c:
         muts.append({"op": "shape", "g": {"r": c, "c": r, "cl": g["cl"]}, "sol": [[0, 0]]})
     muts.append({"op": "shape", "g": M.g_make(r + 1, c, [0] * (2 * (r + 1) * c))})
+    # a maze whose connection array has a broadcast-compatible shape and repeats this maze's flags along the stretched axis
+    if r == 1 and c >= 1:
+        for k in (2, 3):
+            rows = [[0] * c for _ in range(k)], [[int(g["cl"][c + jj]) if jj < c - 1 else 0 for jj in range(c)] for _ in range(k)]
+            bits = [b for plane in rows for row in plane for b in row]
+            muts.append({"op": "shape", "g": M.g_make(k, c, bits), "sol": [[0, 0]]})
+    if c == 1 and r >= 1:
+        for k in (2, 3):
+            down = [[int(g["cl"][ii]) if ii < r - 1 else 0 for _ in range(k)] for ii in range(r)]
+            right = [[0] * k for _ in range(r)]
+            bits = [b for plane in (down, right) for row in plane for b in row]
+            muts.append({"op": "shape", "g": M.g_make(r, k, bits), "sol": [[0, 0]]})
     return muts
 
 
@@ -232,7 +306,7 @@ def _bounds_cases(shard, nshards):
             rng_r, rng_c = range(-2, r + 2), range(-2, c + 2)
             for s in ((i, j) for i in rng_r for j in rng_c):
                 for e in ((i, j) for i in rng_r for j in rng_c):
-                    for kind, via in (("targeted", "ctor"), ("targeted", "from_lattice_maze"), ("solved", "ctor")):
+                    for kind, via in (("targeted", "ctor"), ("targeted", "from_lattice_maze"), ("solved", "ctor"), ("solved", "allow_invalid")):
                         k += 1
                         if k % nshards == shard:
                             yield {"r": r, "c": c, "s": list(s), "e": list(e), "kind": kind, "via": via}
@@ -245,7 +319,7 @@ def _bounds_random(draw, hi):
     far = lambda n: st.builds(lambda k, m, sg: sg * m + k, st.integers(0, n - 1), st.sampled_from([128, 256, 512, 1024, 65536, 2**31, 2**32]), st.sampled_from([1, -1]))  # noqa: E731
     co = lambda n: st.one_of(st.integers(-3, n + 2), st.integers(-3, n + 2), far(n), st.sampled_from([127, 128, 255, -128, -129, -255, -256, 32767, 32768]))  # noqa: E731
     return {"r": r, "c": c, "s": [draw(co(r)), draw(co(c))], "e": [draw(co(r)), draw(co(c))],
-            "kind": draw(st.sampled_from(["targeted", "solved"])), "via": draw(st.sampled_from(["ctor", "from_lattice_maze"]))}
+            "kind": draw(st.sampled_from(["targeted", "solved"])), "via": draw(st.sampled_from(["ctor", "from_lattice_maze", "allow_invalid"]))}
 
 
 @st.composite
@@ -289,5 +363,6 @@ def subs(tier: str):
         Sub("pairs-random", check_pair, "hypothesis", strategy=lambda: _random_pair(6 if q else 10), examples=100 if q else 6000),
         Sub("bounds-exhaustive", check_bounds, "exhaustive", cases=_bounds_cases, exhaustive_flag=True),
         Sub("bounds-random", check_bounds, "hypothesis", strategy=lambda: _bounds_random(6 if q else 12), examples=60 if q else 3000),
+        Sub("shipped-between-processes", check_shipped, "custom", run=_shipped_run(12 if q else 60)),
         Sub("datasets", check_dataset, "hypothesis", strategy=_dataset_pair, examples=25 if q else 1500),
     ]
